@@ -121,8 +121,7 @@ func (vc *VC) appendStructsImpl(st *State, c *ssa.CallCommon, args []Val, rt typ
 	}
 	n := src.Sl[2]
 	if !(isNumeral(n) && len(n) == 1) {
-		vc.unsupportedf("append of a non-constant number of struct elements")
-		return vc.opaqueResult(st, rt, "append")
+		return vc.appendStructsGeneral(st, c, s, src, rt, et)
 	}
 	small := int(n[0] - '0')
 	newLen := vc.define("applen", "Int", app("+", s.Sl[2], n))
